@@ -202,7 +202,11 @@ def deep_probe(v):
         for i in pts:
             for j in pts:
                 if j >= i:
-                    v[i:j]
+                    r = v[i:j]
+                    if L <= 6 and 0 <= i < j <= L:
+                        e2 = model.closed_check(r)
+                        if e2:
+                            return 'slice [%d:%d] of the value: %s' % (i, j, e2)
         for i in (range(L) if L <= 10 else (0, 1, L // 2, L - 1, -1)):
             v[i]
         if L <= 64:
